@@ -1,9 +1,8 @@
 SPECIFICATION Spec
-INVARIANT SequentialResults ResultsAreValues
-PROPERTY Pure
+INVARIANT ResultsAreValues
 CONSTANTS
   NProc = 2
   AllowWrite = FALSE
   AllowAlias = FALSE
-  AllowPool = FALSE
+  AllowPool = TRUE
   MaxCalls = 2
